@@ -606,6 +606,9 @@ func synthCert(g *RNG, idx []string) *ObjSpec {
 				ekus = append(ekus, doid(pick(g, synthEKUs)))
 			}
 			add(dext("2.5.29.37", false, dseq(ekus...)))
+		} else if g.Chance(0.03) {
+			// the extension is there and lists nothing
+			add(dext("2.5.29.37", g.Chance(0.1), dseq()))
 		} else if g.Chance(0.85) {
 			var ekus [][]byte
 			k := g.Range(1, 3)
